@@ -267,6 +267,16 @@ def align(cb, ca, K=14, W=8):
                 if i + k <= n and _match(cb, i + k, ca, j, w):
                     found = ("delete", k, 0)
                     break
+            if not found and k == 1:
+                # a lone parenthesis is the only legitimate one-lexeme edit that can sit right next to
+                # another edit (`if a then elsif b then` -> `if (a) then elsif (b) then`)
+                for w in (2, 1):
+                    if j < m and ca[j] in ("(", ")") and _match(cb, i, ca, j + 1, w):
+                        found = ("insert", 0, 1)
+                        break
+                    if i < n and cb[i] in ("(", ")") and _match(cb, i + 1, ca, j, w):
+                        found = ("delete", 1, 0)
+                        break
             if found:
                 break
         if not found:
